@@ -30,7 +30,11 @@ func c17Shapes(quick bool) []Shape {
 				if i > 0 && c.Fork() {
 					val = V("t")
 				}
-				switch c.Choose("op", 0, 3) {
+				switch c.Choose("op", 0, 5) {
+				case 4: // a write that is only executed if the file exists already
+					body = append(body, IfS(ExistsE{Path: p}, WriteS{Path: p, Data: val}))
+				case 5: // an append inside a loop that may run zero times
+					body = append(body, For3(Def(fmt.Sprintf("k%d", i), N(0)), Op("<", V(fmt.Sprintf("k%d", i)), N(int64(i))), Inc(fmt.Sprintf("k%d", i)), WriteS{Path: p, Data: val, Append: T()}))
 				case 0:
 					body = append(body, WriteS{Path: p, Data: val})
 				case 1:
@@ -54,6 +58,12 @@ func c17Shapes(quick bool) []Shape {
 	sh = append(sh, mk("history-two-files", []string{"a.txt", "b.txt"}, false))
 	sh = append(sh, mk("history-in-function", []string{"a.txt", "b.txt"}, true))
 	sh = append(sh, mk("history-blank-in-path", []string{"my file.txt"}, false))
+	sh = append(sh, constShape("read-and-write-in-one-statement", Prog(
+		Fn("rotate", []ParamDecl{Pm("p", TString), Pm("s", TString)}, []Type{TString}, WriteS{Path: V("p"), Data: V("s")}, Ret(S("rotated"))),
+		Fn("note", []ParamDecl{Pm("p", TString), Pm("s", TString)}, []Type{TString}, WriteS{Path: V("p"), Data: V("s"), Append: T()}, Ret(S("noted"))),
+		WriteS{Path: S("a.txt"), Data: S("first version")},
+		Pr(ReadE{Path: S("a.txt")}, Call("rotate", S("a.txt"), S("second version")), ReadE{Path: S("a.txt")}),
+		Def("x", Op("+", ReadE{Path: S("a.txt")}, Call("note", S("a.txt"), S("third line")))), Pr(V("x")), Pr(ReadE{Path: S("a.txt")}))))
 	sh = append(sh, Shape{Name: "append-flag-symbolic", AssumeLits: smallLits(0, 1, 0), Prog: func(c *gosym.Ctx) *Program {
 		v := SymStr(c, "v", 1, neutral)
 		return Prog(Def("s", SR(v)), WriteS{Path: S("a.txt"), Data: S("one")}, WriteS{Path: S("a.txt"), Data: V("s"), Append: Op("==", L(0), N(1))}, Pr(ReadE{Path: S("a.txt")}))
@@ -123,8 +133,11 @@ func c18Shapes(quick bool) []Shape {
 			switch {
 			case i == pos && c.Fork():
 				args = append(args, StrLit{Val: v, Raw: true})
-			case i == pos:
+			case i == pos && c.Fork():
 				args = append(args, V("s"))
+			case i == pos:
+				// computed argument: a concatenation that starts with a plain literal
+				args = append(args, Op("+", S("p="), V("s")))
 			default:
 				args = append(args, []Expr{S("x"), V("t")}[c.Choose("other", 0, 1)])
 			}
@@ -164,12 +177,17 @@ func c18Shapes(quick bool) []Shape {
 		return []Stmt{DefN([]string{"o", "e", "code"}, AppCallE{Calls: calls}), Pr(S("["), V("o"), S("]"), V("code"))}
 	})
 	// fixed argument lists around empty strings and blanks in literals
-	for i, args := range [][]Expr{{S("")}, {S("a"), S(""), S("b")}, {S("a b")}, {S(" a")}, {S("a"), S("b c"), S("d")}, {S("*")}, {S("a;b")}} {
+	for i, args := range [][]Expr{{S("")}, {S("a"), S(""), S("b")}, {S("a b")}, {S(" a")}, {S("a"), S("b c"), S("d")}, {S("*")}, {S("a;b")}, {S("a ")}, {S(" e ")}, {S("a"), S(" b"), S("c ")}, {S(" ")}} {
 		args := args
 		sh = append(sh, Shape{Name: fmt.Sprintf("literal-args-%d", i), Pre: pre, Setup: setup, Prog: func(c *gosym.Ctx) *Program {
 			return Prog(Do(AppCallE{Calls: []AppOne{{Name: "./probe", Args: args}}}), DefN([]string{"o", "e", "code"}, AppCallE{Calls: []AppOne{{Name: "./probe3", Args: args}}}), Pr(V("o"), V("code")))
 		}})
 	}
+	mk("capture-in-function", func(c *gosym.Ctx, v gosym.Str) []Stmt {
+		prog := []string{"./probe3", "./probe200", "./probe"}[c.Choose("prog", 0, 2)]
+		return []Stmt{Fn("run", []ParamDecl{Pm("a", TString)}, []Type{TString, TInt}, DefN([]string{"o", "e", "code"}, AppCallE{Calls: []AppOne{{Name: "./probe", Args: []Expr{V("a")}}, {Name: prog, Args: []Expr{S("x")}}}}), Pr(V("e")), Ret(V("o"), V("code"))),
+			DefN([]string{"ro", "rc"}, Call("run", V("s"))), Pr(S("["), V("ro"), S("]"), V("rc"))}
+	})
 	mk("capture-assign-existing", func(c *gosym.Ctx, v gosym.Str) []Stmt {
 		return []Stmt{VarT("o", TString), VarT("e", TString), VarT("code", TInt), SetN([]string{"o", "e", "code"}, AppCallE{Calls: []AppOne{{Name: "./probe3", Args: argList(c, v, 1)}}}), Pr(V("o"), V("code"))}
 	})
